@@ -11,7 +11,13 @@ RECURSIVE TrimL(_), TrimR(_)
 TrimL(s) == IF s # <<>> /\ s[1] \in {32, 9, 10, 13} THEN TrimL(Tail(s)) ELSE s
 TrimR(s) == IF s # <<>> /\ s[Len(s)] \in {32, 9, 10, 13} THEN TrimR(SubSeq(s, 1, Len(s) - 1)) ELSE s
 TrimBlanks(s) == TrimR(TrimL(s))
+SortVerdict(r) ==
+  LET a == SortJudge(r.args, r.cmp, r.pos)
+      b == IF "named" \in DOMAIN r THEN SortJudge(r.args, r.cmp, r.named) ELSE "ok" IN
+  IF a \notin {"ok", "unspec"} THEN a ELSE IF b \notin {"ok", "unspec"} THEN "named invocation: " \o b
+  ELSE IF a = "unspec" \/ b = "unspec" THEN "unspec" ELSE "ok"
 Verdict(r) ==
+  IF r.fn = "sort" THEN SortVerdict(r) ELSE
   LET want == IF "re" \in DOMAIN r THEN BifApplyRe(r.fn, r.args, r.re) ELSE BifApply(r.fn, r.args) IN
   IF r.pos.k = "panic" \/ ("named" \in DOMAIN r /\ r.named.k = "panic") THEN "the built-in panicked"
   ELSE IF IsU(want) THEN (IF "named" \in DOMAIN r /\ r.named # r.pos THEN "named and positional invocation differ" ELSE "unspec")
